@@ -297,7 +297,7 @@ def run(plan: dict) -> dict:
         "log_digest": log.digest(),
         "digests": digests,
         "cost_s": {k: round(v, 3) for k, v in cost.items()},
-        "schedule_sig": digest([plan.get("hashseed"), plan.get("import_perm_seed"), sched, [(o.get("op"), o.get("pid"), bool(o.get("fault"))) for o in plan["ops"]]]),
+        "schedule_sig": digest([plan.get("hashseed"), plan.get("import_perm_seed"), plan.get("import_perm_frac"), sched, [(o.get("op"), o.get("pid"), bool(o.get("fault"))) for o in plan["ops"]]]),
         "samples": [{"schedule": sched, "hashseed": plan.get("hashseed"), "import_perm_seed": plan.get("import_perm_seed"), "ops_head": plan["ops"][:6]}],
     }
 
@@ -365,7 +365,9 @@ def gen_run(seed: int, run: int, reqs: list[dict], n_meas: int) -> dict:
         ops.append(op)
         for _ in range(r.choice([0, 0, 0, 1, 2])):
             ops.append(dict(q))
-    return {"property": PROP, "hashseed": hashseed, "import_perm_seed": import_perm, "schedule": sched, "ops": ops, "run": run}
+    # the user may have imported only a few plugin modules (in any order) before the library's own discovery runs
+    frac = r.choice([1.0, 1.0, 0.3, 0.05])
+    return {"property": PROP, "hashseed": hashseed, "import_perm_seed": import_perm, "import_perm_frac": frac, "schedule": sched, "ops": ops, "run": run}
 
 
 def main(tier: str) -> int:
